@@ -1,6 +1,6 @@
 (* Runner entry points: one number per executable model function.  The Python
    harness reads the "(* ENTRY n name *)" comments to build its name table. *)
-From HX Require Import Model.Base Model.Cell.
+From HX Require Import Model.Base Model.Cell Model.EmitterEntry.
 
 Definition dispatch (e : Z) (a : list Z) : list Z :=
   match e with
@@ -9,5 +9,6 @@ Definition dispatch (e : Z) (a : list Z) : list Z :=
   | 1903 => e_row_l2i a    (* ENTRY 1903 row_l2i *)
   | 1904 => e_row_i2l a    (* ENTRY 1904 row_i2l *)
   | 1905 => e_extract a    (* ENTRY 1905 extract *)
+  | 2001 => e_emitter a    (* ENTRY 2001 emitter *)
   | _ => [-999]
   end.
